@@ -97,6 +97,11 @@ var awkwardCatalogue = []awkward{
 	{"nil-map", func() any { return map[string]int(nil) }},
 	{"map-any-key", func() any { return map[any]any{1: "x", "k": nil} }},
 	{"NaN", func() any { return math.NaN() }},
+	{"map-NaN-key", func() any { return map[float64]string{math.NaN(): "x", 1: "y"} }}, // a key MapKeys lists and MapIndex never finds
+	{"map-any-NaN-key", func() any { return map[any]any{math.NaN(): 1} }},
+	{"map-NaN-value", func() any { return map[string]float64{"a": math.NaN()} }},
+	{"slice-NaN", func() any { return []float64{math.NaN(), 1} }},
+	{"array-NaN", func() any { return [2]float64{math.NaN(), 1} }},
 	{"Inf", func() any { return math.Inf(-1) }},
 	{"private-field-struct", func() any { return privStruct{A: 1, priv: "p", B: "b"} }},
 	{"private-only-struct", func() any { return privOnly{1, 2} }},
